@@ -11,9 +11,11 @@ from ..astutil import (
 )
 from ..evalx import Sym, Unknown
 from ..index import ClassInfo
-from ..report import Registry, sub
+from ..report import Registry, chain, sub
 from ._helpers_rules_a import str_constants
-from ._helpers_rob_c1 import bind_call_args, feasible_reachable, inline_locals, returned_values
+from ._helpers_rob_c1 import (
+    Opaque, PyLite, SStr, Unsupported, bind_call_args, feasible_reachable, inline_locals, label_of, returned_values,
+)
 
 R = Registry(
     "C07",
@@ -85,7 +87,7 @@ def r1(ctx):
 
 
 # ------------------------------------------------------------------------------------------ R2
-_FRAG = re.compile(r"^(?P<list>\(%s\)|NULL)\)\s+(?P<conn>AND|OR)\s+\((?P<a>\d+)\s*(?P<op>=|!=|<>)\s*(?P<b>\d+)$")
+_FRAG = re.compile(r"^(?P<list>\((?P<row>[^()]*)\)|[^()\s]+)\)\s+(?P<conn>AND|OR)\s+\((?P<a>\d+)\s*(?P<op>=|!=|<>)\s*(?P<b>\d+)$")
 _WHERE = re.compile(r"WHERE\s+(?P<a>\d+)\s*(?P<op>=|!=|<>)\s*(?P<b>\d+)\s*$")
 
 
@@ -103,14 +105,24 @@ def _template(expr):
     return None, None
 
 
-def _iterates_over(node, name: str) -> bool:
-    """Does `node` contain a comprehension whose iterable mentions `name` (one item per element)?"""
-    for n in ast.walk(node):
-        if isinstance(n, (ast.GeneratorExp, ast.ListComp)):
-            for g in n.generators:
-                if any(isinstance(x, ast.Name) and x.id == name for x in ast.walk(g.iter)):
-                    return True
-    return False
+def _render(ctx, f, cls, args, no_follow=(), truth=None):
+    """Interpret method `f` (PyLite: no SQLAlchemy code is run, the AST is evaluated on opaque inputs) and return
+    ('return', value) / ('raise', name).  What the text looks like for a given operator / number of element types
+    is read from the *result*, so %-formatting, f-strings, a shared suffix local, a loop that collects the items
+    or a private helper all read the same.  A construct the interpreter does not know is an analysis error."""
+    try:
+        return PyLite(ctx, f.module, truth=truth, cls=cls, no_follow=no_follow).run(f, args)
+    except Unsupported as e:
+        ctx.error(f"{f.key}: cannot be evaluated: {e} (unknown idiom)")
+
+
+def _text(v):
+    """Rendered text of an interpreter value (opaque fragments as \x00?), or None when it is not a string."""
+    if isinstance(v, str):
+        return v
+    if isinstance(v, SStr):
+        return v.text()
+    return None
 
 
 NON_INFIX_LOW = {
@@ -132,86 +144,83 @@ def r2(ctx):
     f = base.methods.get("visit_empty_set_op_expr")
     ctx.require(f is not None, "SQLCompiler.visit_empty_set_op_expr vanished")
     ctx.functions_analysed.add(f.key)
-    p_types, p_op = f.params[1], f.params[2]
-    pm = f.module.parents()
-    seen = {}
-    for r in returns_of(f.node):
-        atoms = guard_atoms(lexical_guards(pm, r, stop=f.node))
-        branch = None
-        for a, pol in atoms:
-            t = a.replace("operators.", "")
-            if t == f"{p_op} is not_in_op" and pol:
-                branch = "not_in"
-            elif t == f"{p_op} is in_op" and pol:
-                branch = "in"
-        tuple_arm = None
-        for a, pol in atoms:
-            if a.replace(" ", "") == f"len({p_types})>1":
-                tuple_arm = pol
-        if branch is None:
-            # the remaining arm: must hand over to the dialect's empty set SELECT
-            v = r.value
-            ok = isinstance(v, ast.Call) and dotted(v.func) == "self.visit_empty_set_expr" and v.args \
-                and isinstance(v.args[0], ast.Name) and v.args[0].id == p_types
-            ctx.check(ok, f.key + ":other-op",
-                      f"for an expand_op that is neither in_op nor not_in_op the method returns `{unparse(v)}` "
-                      f"instead of self.visit_empty_set_expr({p_types})", "delegates to visit_empty_set_expr", f.loc)
-            continue
-        ctx.require(tuple_arm is not None, f"{f.key}: a return in the {branch} branch is not under a len({p_types}) > 1 test")
-        arm = "tuple" if tuple_arm else "scalar"
-        key = f"{f.key}:{branch}:{arm}"
-        fmt, args = _template(r.value)
-        ctx.require(fmt is not None, f"{key}: return value `{unparse(r.value)}` is not a string template")
-        m = _FRAG.match(fmt.strip())
-        if not m:
-            ctx.violation(key, f"fragment {fmt!r} is not of the form `<NULL list>) AND|OR (<n> <op> <n>` "
-                               f"(it must close the IN parenthesis and open the one the template closes)",
-                          f"{f.module.path}:{r.lineno}")
-            seen[(branch, arm)] = True
-            continue
-        problems = []
-        truth = _const_pred(m["a"], m["op"], m["b"])
-        if branch == "in":
-            if m["conn"] != "AND":
-                problems.append(f"IN over the empty set is joined with {m['conn']} (must be AND <false>)")
-            if truth:
-                problems.append(f"constant predicate {m['a']} {m['op']} {m['b']} is true: `x IN ()` would not be false")
-        else:
-            if m["conn"] != "OR":
-                problems.append(f"NOT IN over the empty set is joined with {m['conn']} (must be OR <true>)")
-            if not truth:
-                problems.append(f"constant predicate {m['a']} {m['op']} {m['b']} is false: `NULL NOT IN ()` would be NULL, not true")
-        if arm == "tuple":
-            if m["list"] != "(%s)":
-                problems.append("tuple arm does not render a parenthesised row of NULLs")
-            elif args is None or not _iterates_over(args, p_types) or "NULL" not in str_constants(args):
-                problems.append(f"tuple arm does not render one NULL per element of `{p_types}`")
-        elif m["list"] != "NULL":
-            problems.append("scalar arm does not render a single NULL")
-        ctx.check(not problems, key, "; ".join(problems), f"{fmt!r}", f"{f.module.path}:{r.lineno}")
-        seen[(branch, arm)] = True
-    for b in ("in", "not_in"):
-        for a in ("scalar", "tuple"):
-            if (b, a) not in seen:
-                ctx.violation(f"{f.key}:{b}:{a}", f"no fragment for the {b} / {a} case", f.loc)
+    ctx.require(len(f.params) >= 3, "visit_empty_set_op_expr(self, type_, expand_op) signature changed")
+    p_types = f.params[1]
+    ops = {b: ctx.ev.eval(ast.parse(f"operators.{n}", mode="eval").body, f.module)
+           for b, n in (("in", "in_op"), ("not_in", "not_in_op"), ("other", "eq"))}
+    ctx.require(all(isinstance(v, Sym) for v in ops.values()), "operators.in_op / not_in_op not resolved from sql/compiler.py")
+    # the method is evaluated for each expand_op and for 1, 2 and 3 element types
+    for branch in ("in", "not_in"):
+        per_arm = {"scalar": [], "tuple": []}
+        shown = {}
+        for n in (1, 2, 3):
+            arm = "tuple" if n > 1 else "scalar"
+            types = [Opaque(f"{p_types}[{i}]") for i in range(n)]
+            kind, val = _render(ctx, f, base, [Opaque("self"), types, ops[branch]], no_follow=("visit_empty_set_expr",))
+            problems = per_arm[arm]
+            txt = _text(val) if kind == "return" else None
+            if txt is None:
+                problems.append(f"for {n} element type(s) the method {'raises ' + str(val) if kind == 'raise' else 'returns `' + label_of(val) + '`'}"
+                                f" instead of an SQL fragment")
+                continue
+            shown[arm] = txt
+            m = _FRAG.match(txt.strip())
+            if not m:
+                problems.append(f"fragment {txt!r} is not of the form `<NULL list>) AND|OR (<n> <op> <n>` "
+                                f"(it must close the IN parenthesis and open the one the template closes)")
+                continue
+            truth = _const_pred(m["a"], m["op"], m["b"])
+            if branch == "in":
+                if m["conn"] != "AND":
+                    problems.append(f"IN over the empty set is joined with {m['conn']} (must be AND <false>)")
+                if truth:
+                    problems.append(f"constant predicate {m['a']} {m['op']} {m['b']} is true: `x IN ()` would not be false")
+            else:
+                if m["conn"] != "OR":
+                    problems.append(f"NOT IN over the empty set is joined with {m['conn']} (must be OR <true>)")
+                if not truth:
+                    problems.append(f"constant predicate {m['a']} {m['op']} {m['b']} is false: `NULL NOT IN ()` would be NULL, not true")
+            if arm == "tuple":
+                row = m["row"]
+                if row is None:
+                    problems.append("tuple arm does not render a parenthesised row of NULLs")
+                elif [x.strip() for x in row.split(",")] != ["NULL"] * n:
+                    problems.append(f"tuple arm does not render one NULL per element of `{p_types}` ({n} types -> `({row})`)")
+            elif m["list"] != "NULL":
+                problems.append("scalar arm does not render a single NULL")
+        for arm in ("scalar", "tuple"):
+            uniq = list(dict.fromkeys(per_arm[arm]))
+            ctx.check(not uniq, f"{f.key}:{branch}:{arm}", "; ".join(uniq), repr(shown.get(arm, "")), f.loc)
+    # the remaining arm: must hand over to the dialect's empty set SELECT
+    types = [Opaque(f"{p_types}[{i}]") for i in range(2)]
+    kind, val = _render(ctx, f, base, [Opaque("self"), types, ops["other"]], no_follow=("visit_empty_set_expr",))
+    ok = kind == "return" and isinstance(val, Opaque) and val.call is not None and val.call[0] == "self.visit_empty_set_expr" \
+        and val.call[1] and val.call[1][0] is types
+    ctx.check(ok, f.key + ":other-op",
+              f"for an expand_op that is neither in_op nor not_in_op the method {'returns `' + label_of(val) + '`' if kind == 'return' else 'raises ' + str(val)} "
+              f"instead of self.visit_empty_set_expr({p_types})", "delegates to visit_empty_set_expr", f.loc)
 
     # NOT IN renders `x NOT IN (NULL) OR (1 = 1)`: the visitor has to bracket the whole thing
+    def bracketed(cls, m):
+        kind, val = _render(ctx, m, cls, [Opaque("self")] + [Opaque(p) for p in m.params[1:3]])
+        if kind != "return":
+            return False, False
+        txt = _text(val)
+        deleg = isinstance(val, Opaque) and val.call is not None and val.call[0].endswith(".visit_not_in_op_binary")
+        return (txt is not None and txt.strip().startswith("(") and txt.strip().endswith(")")), deleg
+
     ni = base.methods.get("visit_not_in_op_binary")
     ctx.require(ni is not None, "SQLCompiler.visit_not_in_op_binary vanished")
     ctx.functions_analysed.add(ni.key)
-    ok = False
-    for r in returns_of(ni.node):
-        fmt, args = _template(r.value)
-        if fmt is not None and fmt.strip().startswith("(") and fmt.strip().endswith(")") and fmt.count("%s") == 1:
-            ok = True
+    ok, _ = bracketed(base, ni)
     ctx.check(ok, ni.key, "NOT IN is not rendered inside parentheses although its empty-set form contains a top-level OR",
               "(… NOT IN … )", ni.loc)
     for cls in ix.subclasses(base):
         o = cls.methods.get("visit_not_in_op_binary")
         if o is not None:
-            good = any((_template(r.value)[0] or "").strip().startswith("(") for r in returns_of(o.node)) \
-                or bool(calls_named(o.node, "visit_not_in_op_binary"))
-            ctx.check(good, o.key, "override of visit_not_in_op_binary drops the brackets", "brackets kept", o.loc)
+            ctx.functions_analysed.add(o.key)
+            ok, deleg = bracketed(cls, o)
+            ctx.check(ok or deleg, o.key, "override of visit_not_in_op_binary drops the brackets", "brackets kept", o.loc)
 
     # IN renders `x IN (NULL) AND (1 != 1)` unbracketed: nothing may bind between IN and AND
     prec = ctx.ev.module_value(ix.module("sql/operators.py"), "_PRECEDENCE")
@@ -235,11 +244,12 @@ def r2(ctx):
         o = cls.methods.get("visit_empty_set_op_expr")
         if o is not None and cls is not base:
             ctx.functions_analysed.add(o.key)
-            rets = returns_of(o.node)
-            deleg = rets and all(isinstance(r.value, ast.Call) and dotted(r.value.func) == "self.visit_empty_set_expr"
-                                 and r.value.args and isinstance(r.value.args[0], ast.Name)
-                                 and r.value.args[0].id == o.params[1] for r in rets)
-            ctx.require(deleg, f"{o.key}: override is not a plain delegation to visit_empty_set_expr (unknown idiom)")
+            for b in ("in", "not_in", "other"):
+                types = [Opaque("t0"), Opaque("t1")]
+                kind, val = _render(ctx, o, cls, [Opaque("self"), types, ops[b]], no_follow=("visit_empty_set_expr",))
+                deleg = kind == "return" and isinstance(val, Opaque) and val.call is not None \
+                    and val.call[0] == "self.visit_empty_set_expr" and val.call[1] and val.call[1][0] is types
+                ctx.require(deleg, f"{o.key}: override is not a plain delegation to visit_empty_set_expr (unknown idiom)")
             routed.add(cls.key)
             for s in ix.subclasses(cls):
                 routed.add(s.key)
@@ -248,14 +258,13 @@ def r2(ctx):
         if o is None:
             continue
         ctx.functions_analysed.add(o.key)
-        rets = returns_of(o.node)
-        ctx.require(rets, f"{o.key}: no return")
         problems = []
-        for r in rets:
-            fmt, args = _template(r.value)
-            if fmt is None and isinstance(r.value, ast.BinOp):
-                fmt, args = _template(r.value)
-            ctx.require(fmt is not None, f"{o.key}: return `{unparse(r.value)[:60]}` is not a string template")
+        commas = {}
+        for n in (1, 3):
+            kind, val = _render(ctx, o, cls, [Opaque("self"), [Opaque(f"t{i}") for i in range(n)]])
+            ctx.require(kind == "return", f"{o.key}: raises {val} (C07-R1 judges that)")
+            fmt = _text(val)
+            ctx.require(fmt is not None, f"{o.key}: returns `{label_of(val)[:60]}`, not a string")
             m = _WHERE.search(fmt.strip())
             if not fmt.strip().upper().startswith("SELECT"):
                 problems.append(f"{fmt!r} is not a SELECT")
@@ -263,13 +272,18 @@ def r2(ctx):
                 problems.append(f"{fmt!r} does not end in a constant WHERE predicate")
             elif _const_pred(m["a"], m["op"], m["b"]):
                 problems.append(f"WHERE {m['a']}{m['op']}{m['b']} is true: the 'empty' set has a row")
-            if cls.key in routed and not (args is not None and _iterates_over(args, o.params[1])):
-                problems.append("tuple IN reaches this SELECT but it renders a fixed number of columns")
+            commas[n] = fmt.count(",")
+        if cls.key in routed and not commas[3] - commas[1] >= 2:
+            problems.append("tuple IN reaches this SELECT but it renders a fixed number of columns")
+        problems = list(dict.fromkeys(problems))
         ctx.check(not problems, o.key, "; ".join(problems), "SELECT … WHERE <constant false>", o.loc)
 
 
 # ------------------------------------------------------------------------------------------ R3
-@R.rule("C07-R3", floor=8, template="T-FLOW",
+# floor: 4 anchors (_negate, BindParameter._negate_in_binary, the base hook, InElementImpl._post_coercion) + at least one
+# empty-set site per expander (2).  Today there are 4 sites (tuple / scalar arm x 2 expanders); merging the arms into one
+# call, or the calls into a helper, is a refactoring and must not look like a vanished anchor.
+@R.rule("C07-R3", floor=6, template="T-FLOW",
         desc="BinaryExpression._negate routes the right operand through _negate_in_binary(negate, operator); "
              "BindParameter._negate_in_binary flips expand_op on a clone exactly when it equals the original "
              "operator; the IN coercion stamps expand_op; every empty-set call site passes parameter.expand_op")
@@ -392,10 +406,14 @@ def r3(ctx):
             problems.append(f"`{unparse(n)}` mutates a parameter that was not cloned first")
     ctx.check(not problems, f.key, "; ".join(problems), "clone.expanding = True; clone.expand_op = operator", f.loc)
 
+    # every place that asks for the empty-set rendering passes the parameter's own expand_op: direct calls of
+    # visit_empty_set_op_expr, and calls of a helper that makes the call for its `parameter` argument (the helper's
+    # own call is judged like any other; its callers must hand it a parameter object, not something made up)
     n_sites = 0
     for m in ix.all_modules():
         if "visit_empty_set_op_expr" not in m.source:
             continue
+        helpers = {}
         for fn in ix.all_functions(m):
             for c in calls_named(fn.node, "visit_empty_set_op_expr"):
                 n_sites += 1
@@ -405,6 +423,25 @@ def r3(ctx):
                 ok = isinstance(arg, ast.Attribute) and arg.attr == "expand_op"
                 ctx.check(ok, f"{fn.key}:call#{n_sites}",
                           f"`{unparse(c)[:80]}` does not pass the parameter's expand_op", unparse(arg) if arg else "",
+                          f"{m.path}:{c.lineno}")
+                if ok and isinstance(arg.value, ast.Name) and arg.value.id in fn.params and fn.cls is not None \
+                        and not fn.name.startswith(EXPANDERS_PREFIX) and _is_empty_set_helper(ctx, fn.cls, fn.name):
+                    helpers[fn.name] = (fn, arg.value.id)
+        for fn in ix.all_functions(m) if helpers else ():
+            for c in calls_in(fn.node):
+                if not (isinstance(c.func, ast.Attribute) and c.func.attr in helpers and unparse(c.func.value) == "self"):
+                    continue
+                h, prm = helpers[c.func.attr]
+                if fn.cls is None or ix.resolve_method(fn.cls, h.name) is not h:
+                    continue
+                n_sites += 1
+                ctx.functions_analysed.add(fn.key)
+                b = bind_call_args(c, [p_ for p_ in h.params if p_ != "self"])
+                arg = inline_locals(fn.node, b[prm]) if b and prm in b else None
+                ok = isinstance(arg, ast.Name) and arg.id in fn.params
+                ctx.check(ok, f"{fn.key}:call#{n_sites}",
+                          f"`{unparse(c)[:80]}` does not hand its own parameter object to {h.qualname}, which renders the "
+                          f"empty set for `{prm}.expand_op`", f"{unparse(arg) if arg is not None else ''}.expand_op via {h.qualname}",
                           f"{m.path}:{c.lineno}")
 
 
@@ -439,34 +476,11 @@ def _target_names(t):
 
 
 def _inline_locals(fn, expr, params_map):
-    """Text of `expr` with single-assignment straight-line locals of `fn` replaced by their defining
-    expression and parameters renamed through `params_map` (so that two siblings can be compared
+    """Text of `expr` with the locals of `fn` that are bound exactly once (anywhere in the function) replaced by
+    their defining expression and parameters renamed through `params_map` (so that two siblings can be compared
     independently of the names of their locals)."""
-    once = {}
-    counts = {}
-    for n, v, st in _all_name_stores(fn):
-        counts[n] = counts.get(n, 0) + 1
-        if v is not None and st in fn.body and isinstance(st, ast.Assign):
-            once[n] = v
-    env = {n: v for n, v in once.items() if counts[n] == 1 and isinstance(v, (ast.Attribute, ast.Name, ast.Call))}
-
-    class T(ast.NodeTransformer):
-        def __init__(self):
-            self.depth = 0
-
-        def visit_Name(self, node):
-            if node.id in params_map:
-                return ast.copy_location(ast.Name(id=params_map[node.id], ctx=node.ctx), node)
-            if node.id in env and self.depth < 4:
-                self.depth += 1
-                try:
-                    import copy
-                    return self.visit(copy.deepcopy(env[node.id]))
-                finally:
-                    self.depth -= 1
-            return node
-    import copy
-    return unparse(T().visit(copy.deepcopy(expr)))
+    env = {k: ast.Name(id=v, ctx=ast.Load()) for k, v in params_map.items()}
+    return unparse(inline_locals(fn, expr, env))
 
 
 def _all_name_stores(fn):
@@ -475,11 +489,60 @@ def _all_name_stores(fn):
     return name_stores(fn)
 
 
+def _is_empty_set_helper(ctx, cls, name) -> bool:
+    """A method of the compiler (not itself an expander) all of whose returns hand over to
+    self.visit_empty_set_op_expr(...): `self.<name>(...)` at a call site stands for the empty-set rendering."""
+    if cls is None or name.startswith(EXPANDERS_PREFIX) or name == "visit_empty_set_op_expr":
+        return False
+    tgt = ctx.index.resolve_method(cls, name)
+    if tgt is None or tgt.type_only:
+        return False
+    vals = returned_values(ctx.index, cls, tgt.node, depth=0)
+    ok = bool(vals) and all(isinstance(v, ast.Call) and dotted(v.func) == "self.visit_empty_set_op_expr" for v in vals)
+    if ok:
+        ctx.functions_analysed.add(tgt.key)
+    return ok
+
+
+def _empty_set_sites(ctx, f):
+    """Calls in expander `f` that produce the empty-set rendering: self.visit_empty_set_op_expr(...) itself, or a
+    helper method that returns it."""
+    out = list(calls_named(f.node, "visit_empty_set_op_expr"))
+    for c in calls_in(f.node):
+        if isinstance(c.func, ast.Attribute) and isinstance(c.func.value, ast.Name) and c.func.value.id == "self" \
+                and c not in out and _is_empty_set_helper(ctx, f.cls, c.func.attr):
+            out.append(c)
+    return out
+
+
+def _empty_arm_renderings(ctx, f, v):
+    """{'empty:tuple': expr, 'empty:scalar': expr}: what the expression `v` (the empty-set text of an arm that is
+    selected by emptiness only) evaluates to when the type is / is not a tuple type: a conditional expression
+    for the element types, or a helper method that makes the distinction, is evaluated (PyLite) under each outcome of
+    the `_is_tuple_type` test and must end in self.visit_empty_set_op_expr(<types>, <expand_op>); the result is
+    returned as an expression in the caller's terms."""
+    e = inline_locals(f.node, v)
+    out = {}
+    for arm, is_tuple in (("empty:tuple", True), ("empty:scalar", False)):
+        def truth(label, is_tuple=is_tuple):
+            return is_tuple if label.endswith("._is_tuple_type") else None
+        it = PyLite(ctx, f.module, truth=truth, cls=f.cls, no_follow=("visit_empty_set_op_expr",))
+        env = {n.id: Opaque(n.id) for n in ast.walk(e) if isinstance(n, ast.Name)}
+        try:
+            val = it.ev(e, env, 0)
+        except Unsupported as ex:
+            ctx.error(f"{f.key}: empty-set text `{unparse(v)[:60]}` cannot be evaluated: {ex} (unknown idiom)")
+        ctx.require(isinstance(val, Opaque) and val.call is not None and val.call[0] == "self.visit_empty_set_op_expr",
+                    f"{f.key}: empty-set text `{unparse(v)[:60]}` does not end in self.visit_empty_set_op_expr(...)")
+        out[arm] = ast.parse(val.label, mode="eval").body
+    return out
+
+
 def _values_param(ctx, f):
     """The parameter of an expander whose emptiness selects the empty-set rendering."""
     pm = f.module.parents()
     cands = None
-    sites = calls_named(f.node, "visit_empty_set_op_expr")
+    sites = _empty_set_sites(ctx, f)
     ctx.require(sites, f"{f.key}: no empty-set rendering (visit_empty_set_op_expr) in an IN-list expander")
     origin = _param_origins(f)
     for c in sites:
@@ -654,7 +717,7 @@ def _arm_of(guards, p, al):
     if empty is None:
         return None, extra
     if empty:
-        return (None if tup is None else ("empty:tuple" if tup else "empty:scalar")), extra
+        return ("empty" if tup is None else ("empty:tuple" if tup else "empty:scalar")), extra
     if tup is None:
         return None, extra
     return ("tuple" if tup else "scalar"), extra
@@ -704,12 +767,16 @@ def r4(ctx):
         # (ii) the empty arm is selected by emptiness alone
         for i, c in enumerate(empty_sites):
             arm, extra = _arm_of(lexical_guards(pm, c, stop=f.node), p, al)
-            ctx.require(arm in ("empty:tuple", "empty:scalar"),
+            if arm == "empty":
+                # the tuple / scalar distinction is made inside the call (helper, conditional element types)
+                _empty_arm_renderings(ctx, f, c)
+            ctx.require(arm in ("empty:tuple", "empty:scalar", "empty"),
                         f"{f.key}: empty-set call `{unparse(c)[:60]}` is not under `not {p}` and a tuple-type test")
-            ctx.check(not extra, f"{f.key}:{arm}:selected-by-emptiness-only",
-                      f"the empty-set rendering is additionally conditioned on {extra}: an empty list can reach the "
-                      f"item-joining arm (`IN ()`) or a non-empty list the empty-set arm",
-                      f"guard: not {p}", f"{f.module.path}:{c.lineno}")
+            for arm2 in (("empty:tuple", "empty:scalar") if arm == "empty" else (arm,)):
+                ctx.check(not extra, f"{f.key}:{arm2}:selected-by-emptiness-only",
+                          f"the empty-set rendering is additionally conditioned on {extra}: an empty list can reach the "
+                          f"item-joining arm (`IN ()`) or a non-empty list the empty-set arm",
+                          f"guard: not {p}", f"{f.module.path}:{c.lineno}")
         # non-empty lists must not reach the empty-set arm: the test is the plain truth value of the list
         # (iii) every non-empty arm iterates the list
         rets = returns_of(f.node)
@@ -735,7 +802,12 @@ def r4(ctx):
                 continue
             arm, extra = _arm_of(lexical_guards(pm, st, stop=f.node), p, al)
             ctx.require(arm is not None, f"{f.key}: `{rv}` is assigned outside the empty/tuple/scalar arms")
-            label = arm + "".join(f":if {'' if pol else 'not '}{a}" for a, pol in extra)
+            suffix = "".join(f":if {'' if pol else 'not '}{a}" for a, pol in extra)
+            if arm == "empty":
+                for a2, v2 in _empty_arm_renderings(ctx, f, v).items():
+                    arms[a2 + suffix] = v2
+                continue
+            label = arm + suffix
             arms[label] = v
             if arm.startswith("empty"):
                 continue
@@ -1252,3 +1324,101 @@ R.mutant("benign-r3-callsite-expand-op-local", COMP,
              "                replacement_expression = self.visit_empty_set_op_expr(\n                    parameter.type.types, parameter.expand_op\n                )",
              "        if not values:\n            to_update = []\n            in_or_not_in = parameter.expand_op\n            if typ_dialect_impl._is_tuple_type:\n"
              "                replacement_expression = self.visit_empty_set_op_expr(\n                    parameter.type.types, in_or_not_in\n                )"), None)
+
+# ---- robustify round (rob-C1): R2 reads the *rendered* fragments (the methods are evaluated on opaque inputs), R3 / R4
+# follow a helper that renders the empty set
+_ESOE = '''        if expand_op is operators.not_in_op:
+            if len(type_) > 1:
+                return "(%s)) OR (1 = 1" % (
+                    ", ".join("NULL" for element in type_)
+                )
+            else:
+                return "NULL) OR (1 = 1"
+        elif expand_op is operators.in_op:
+            if len(type_) > 1:
+                return "(%s)) AND (1 != 1" % (
+                    ", ".join("NULL" for element in type_)
+                )
+            else:
+                return "NULL) AND (1 != 1"
+        else:
+            return self.visit_empty_set_expr(type_)
+'''
+_ESOE_DEDUP = '''        if expand_op is operators.not_in_op:
+            always_true_or_false = "%s"
+        elif expand_op is operators.in_op:
+            always_true_or_false = "%s"
+        else:
+            return self.visit_empty_set_expr(type_)
+
+        if len(type_) > 1:
+            null_tuple = %s
+            return f"({null_tuple})) {always_true_or_false}"
+        else:
+            return f"NULL) {always_true_or_false}"
+'''
+_PER_ELEMENT = '", ".join("NULL" for _ in type_)'
+R.mutant("benign-r2-fragments-deduplicated-fstrings", COMP, sub(_ESOE, _ESOE_DEDUP % ("OR (1 = 1", "AND (1 != 1", _PER_ELEMENT)), None)
+R.mutant("benign-r2-null-row-by-list-multiplication", COMP,
+         sub(_ESOE, _ESOE_DEDUP % ("OR (1 = 1", "AND (1 != 1", '", ".join(["NULL"] * len(type_))')), None)
+R.mutant("r2-deduplicated-suffixes-swapped", COMP, sub(_ESOE, _ESOE_DEDUP % ("AND (1 != 1", "OR (1 = 1", _PER_ELEMENT)), "C07-R2")
+R.mutant("r2-deduplicated-null-row-fixed-width", COMP, sub(_ESOE, _ESOE_DEDUP % ("OR (1 = 1", "AND (1 != 1", '"NULL, NULL"')), "C07-R2")
+R.mutant("r2-deduplicated-other-op-falls-through", COMP, sub(_ESOE, '''        always_true_or_false = "OR (1 = 1"
+        if expand_op is operators.in_op:
+            always_true_or_false = "AND (1 != 1"
+
+        if len(type_) > 1:
+            null_tuple = ", ".join("NULL" for _ in type_)
+            return f"({null_tuple})) {always_true_or_false}"
+        else:
+            return f"NULL) {always_true_or_false}"
+'''), "C07-R2")
+_SQLITE_ES = '''        return "SELECT %s FROM (SELECT %s) WHERE 1!=1" % (
+            ", ".join("1" for type_ in element_types or [INTEGER()]),
+            ", ".join("1" for type_ in element_types or [INTEGER()]),
+        )
+'''
+R.mutant("benign-r2-sqlite-empty-set-columns-by-loop", "dialects/sqlite/base.py", sub(_SQLITE_ES, '''        cols = []
+        for type_ in element_types or [INTEGER()]:
+            cols.append("1")
+        placeholder_cols = ", ".join(cols)
+        return f"SELECT {placeholder_cols} FROM (SELECT {placeholder_cols}) WHERE 1!=1"
+'''), None)
+R.mutant("r2-sqlite-empty-set-loop-single-column", "dialects/sqlite/base.py", sub(_SQLITE_ES, '''        cols = []
+        for type_ in element_types or [INTEGER()]:
+            cols = ["1"]
+        placeholder_cols = ", ".join(cols)
+        return f"SELECT {placeholder_cols} FROM (SELECT {placeholder_cols}) WHERE 1!=1"
+'''), "C07-R2")
+# the two arms of the empty case merged into a helper (rfD_5) / a conditional expression
+_EMPTY_BOUND = ("        if not values:\n            to_update = []\n            if typ_dialect_impl._is_tuple_type:\n"
+                "                replacement_expression = self.visit_empty_set_op_expr(\n                    parameter.type.types, parameter.expand_op\n                )\n"
+                "            else:\n                replacement_expression = self.visit_empty_set_op_expr(\n                    [parameter.type], parameter.expand_op\n                )\n")
+_EMPTY_LIT = ("            if typ_dialect_impl._is_tuple_type:\n"
+              "                replacement_expression = self.visit_empty_set_op_expr(\n                    parameter.type.types, parameter.expand_op\n                )\n\n"
+              "            else:\n                replacement_expression = self.visit_empty_set_op_expr(\n                    [parameter.type], parameter.expand_op\n                )\n")
+_LIT_DEF = "    def _literal_execute_expanding_parameter_literal_binds(\n"
+_ES_HELPER = ("    def _empty_set_for(self, parameter, impl):\n        if impl._is_tuple_type:\n            element_types = parameter.type.types\n"
+              "        else:\n            element_types = [parameter.type]\n        return self.visit_empty_set_op_expr(element_types, %s)\n\n")
+R.mutant("benign-r4-empty-set-helper-in-both-expanders", COMP,
+         chain(sub(_LIT_DEF, _ES_HELPER % "parameter.expand_op" + _LIT_DEF),
+               sub(_EMPTY_BOUND, "        if not values:\n            to_update = []\n            replacement_expression = self._empty_set_for(parameter, typ_dialect_impl)\n"),
+               sub(_EMPTY_LIT, "            replacement_expression = self._empty_set_for(parameter, typ_dialect_impl)\n")), None)
+R.mutant("benign-r4-empty-set-helper-in-literal-expander-only", COMP,
+         chain(sub(_LIT_DEF, _ES_HELPER % "parameter.expand_op" + _LIT_DEF),
+               sub(_EMPTY_LIT, "            replacement_expression = self._empty_set_for(parameter, typ_dialect_impl)\n")), None)
+R.mutant("r3-empty-set-helper-drops-expand-op", COMP,
+         chain(sub(_LIT_DEF, _ES_HELPER % "operators.in_op" + _LIT_DEF),
+               sub(_EMPTY_BOUND, "        if not values:\n            to_update = []\n            replacement_expression = self._empty_set_for(parameter, typ_dialect_impl)\n"),
+               sub(_EMPTY_LIT, "            replacement_expression = self._empty_set_for(parameter, typ_dialect_impl)\n")), "C07-R3")
+R.mutant("benign-r4-empty-arm-conditional-element-types", COMP,
+         sub(_EMPTY_BOUND, "        if not values:\n            to_update = []\n            replacement_expression = self.visit_empty_set_op_expr(\n"
+                           "                parameter.type.types if typ_dialect_impl._is_tuple_type else [parameter.type],\n"
+                           "                parameter.expand_op,\n            )\n"), None)
+R.mutant("r4-literal-empty-set-helper-prefixed-with-values", COMP,
+         chain(sub(_LIT_DEF, _ES_HELPER % "parameter.expand_op" + _LIT_DEF),
+               sub(_EMPTY_LIT, "            replacement_expression = \"VALUES \" + self._empty_set_for(parameter, typ_dialect_impl)\n")), "C07-R4")
+R.mutant("r4-empty-set-helper-under-extra-condition", COMP,
+         chain(sub(_LIT_DEF, _ES_HELPER % "parameter.expand_op" + _LIT_DEF),
+               sub("        if not values:\n            to_update = []\n            if typ_dialect_impl._is_tuple_type:\n",
+                   "        if not values or values == [None]:\n            to_update = []\n            if typ_dialect_impl._is_tuple_type:\n")), "C07-R4")
